@@ -364,21 +364,24 @@ class NetworkGraph(AbstractBaseIR):
             # one entry per source VARIABLE: two variables of one node projecting to the same target are separate inputs
             source_var = edge.get('source_var')
             source = (source, source_var if isinstance(source_var, str) else None)
-            if source not in data:
-                data[source] = dict()
+            # a Connectivity edge (array-valued weight) is an input of its own: two of them from the same
+            # source variable must not be merged into one (malformed) input
+            group = source + (idx,) if isinstance(edge.get('weight'), np.ndarray) else source
+            if group not in data:
+                data[group] = dict()
             for key in keys:
                 raw = edge.get(key)
                 val = raw if isinstance(raw, (np.ndarray, EdgeIR)) else deepcopy(raw)
                 try:
-                    data[source][key].extend(val)
+                    data[group][key].extend(val)
                 except AttributeError:
-                    field = data[source][key]
+                    field = data[group][key]
                     if type(field) is str or field is None:
                         pass
                     else:
-                        data[source][key] = [field, val]
+                        data[group][key] = [field, val]
                 except KeyError:
-                    data[source][key] = val
+                    data[group][key] = val
         return data
 
     def _add_matrix_delay(self, node: str, op: str, var: str, edge: tuple,
@@ -719,7 +722,8 @@ class NetworkGraph(AbstractBaseIR):
         # step 1: collect all inputs
         weights, source_indices, target_indices, sources = [], [], [], []
         edge_irs, edge_var_maps = [], []
-        for (snode, _), sinfo in inputs.items():
+        for group, sinfo in inputs.items():
+            snode = group[0]  # inputs are keyed by (source node, source variable[, edge index])
             weights.append(sinfo['weight'])
             source_indices.append(sinfo['source_idx'])
             target_indices.append(sinfo['target_idx'])
@@ -730,6 +734,7 @@ class NetworkGraph(AbstractBaseIR):
         # step 2: process incoming edges
         source_vars, args = {}, {}
         eqs, in_vars = [], []
+        input_names = {}
         for i, (weight, sidx, tidx, (snode, sop, svar), edge_ir, edge_var_map) in \
                 enumerate(zip(weights, source_indices, target_indices, sources, edge_irs, edge_var_maps)):
 
@@ -758,6 +763,11 @@ class NetworkGraph(AbstractBaseIR):
                 s_str = svar
                 sidx_str = 'source_idx'
                 tidx_str = 'target_idx'
+
+            # one input name per variable: a variable that is read twice by this in-edge operator (two connections
+            # from the same source variable, or a source variable that is also a post-synaptic variable) keeps the
+            # name under which it was registered first
+            s_str = input_names.setdefault((snode, sop, svar), s_str)
 
             # case 0g: global edge — weight is a 0-d (scalar) array (used by
             # Connectivity for uniform all-to-all coupling). Realized as a reduction
@@ -832,8 +842,7 @@ class NetworkGraph(AbstractBaseIR):
                             post_op = info['op']
                             # own key: a source variable of the same name (another population) must not be
                             # overwritten; the source variable itself (self-coupling) keeps its one name
-                            post_key = s_str if (tnode, post_op, post_var) == (snode, sop, svar) \
-                                else f'{post_var}_post{i}'
+                            post_key = input_names.setdefault((tnode, post_op, post_var), f'{post_var}_post{i}')
                             expr_map[ev] = f'broadcast_post({post_key})'
                             source_vars[post_key] = {'sources': [post_op], 'node': tnode, 'var': post_var}
 
